@@ -152,6 +152,49 @@ def ordered_locals(fnode):
 
 
 _BASELINE_LOCALS = None
+_BASELINE_LOOPS = None
+
+
+def loop_nodes(fnode):
+    loops = [x for x in ast.walk(fnode) if isinstance(x, (ast.For, ast.While))]
+    loops.sort(key=lambda x: (x.lineno, x.col_offset))
+    return loops
+
+
+def loop_headers(fnode):
+    """the loops of a function in source order, each as its header text"""
+    out = []
+    for x in loop_nodes(fnode):
+        if isinstance(x, ast.For):
+            out.append('for %s in %s' % (ast.unparse(x.target), ast.unparse(x.iter)))
+        else:
+            out.append('while %s' % ast.unparse(x.test))
+    return out
+
+
+def loop_alignment(file, qualname, fnode):
+    """{position of a loop in the current function -> ordinal the sidecar contract uses (its position in the pinned tree)} when loops
+    were added or removed (e.g. an explicit loop turned into a comprehension or back); None when the positions still agree.  Loops
+    are matched by their header text; a loop of the current code without a partner gets an ordinal no contract uses."""
+    global _BASELINE_LOOPS
+    if _BASELINE_LOOPS is None:
+        try:
+            _BASELINE_LOOPS = json.load(open(os.path.join(os.path.dirname(os.path.dirname(os.path.dirname(os.path.abspath(__file__)))), 'baseline_loops.json')))
+        except Exception:
+            _BASELINE_LOOPS = {}
+    B = (_BASELINE_LOOPS.get(file) or {}).get(qualname)
+    if B is None or fnode is None:
+        return None
+    C = loop_headers(fnode)
+    if len(B) == len(C):
+        return None
+    import difflib
+    sm = difflib.SequenceMatcher(None, B, C, autojunk=False)
+    m = {}
+    for a, b, size in sm.get_matching_blocks():
+        for t in range(size):
+            m[b + t] = a + t
+    return {j: m.get(j, 1000 + j) for j in range(len(C))}
 
 
 def local_renaming(file, qualname, fnode):
@@ -203,9 +246,9 @@ class Unit:
             return
         self.rename = local_renaming(contract.file, contract.qualname, self.node)
         if self.node is not None:
-            loops = [x for x in ast.walk(self.node) if isinstance(x, (ast.For, ast.While))]
-            loops.sort(key=lambda x: (x.lineno, x.col_offset))
-            self._loop_ord = {id(x): k for k, x in enumerate(loops)}
+            loops = loop_nodes(self.node)
+            al = loop_alignment(contract.file, contract.qualname, self.node)
+            self._loop_ord = {id(x): (k if al is None else al[k]) for k, x in enumerate(loops)}
 
     def loop_ordinal(self, n):
         return self._loop_ord[id(n)]
